@@ -62,12 +62,15 @@ class ReportLab:
             return n[0]
         cb = self.new(self.Codebase, tag("root"))
         files = [("src/pkg " + tag("d1") + "/a.py", "Python"), ("src/pkg " + tag("d1") + "/sub/" + tag("f2") + ".js", "JavaScript"),
-                 (tag("top") + ".py", "Python")]
+                 (tag("top") + ".py", "Python"),
+                 # strings with only one of the characters that need escaping (a backslash but no quote, a quote but no backslash)
+                 ("only\\backslash/w.py", "Python"), ('only"quote/v.py', "Python")]
         sums = []
         for path, lang in files:
             ms = []
             for k in range(2):
-                ms.append(self.new(self.Measurement, tag(f"fn{k}"), self.new(self.Location, num(), num()), self.new(self.Location, num(), num()),
+                uname = tag(f"fn{k}") if "only" not in path else ("\\u0061bc" if "backslash" in path else 'say"hi')
+                ms.append(self.new(self.Measurement, uname, self.new(self.Location, num(), num()), self.new(self.Location, num(), num()),
                                    [7, 40][k] + num() % 3))
             loc = sum(m.fields["value"] for m in ms)
             # the first two files have the same content (one checksum) but another name, language and other functions: what is
